@@ -6,6 +6,7 @@ from core import proto
 from .common import case, guarded, ordinal_instance, strict, rand_perm
 
 ID = "C20"
+COVER_FILES = ["properties/distances.py"]
 RULE = ("exhaustive: all ordered pairs of permutations of {1..n} for n <= 5 (quick: n <= 4) for the three distances "
         "(each case evaluates d(p,q) and d(q,p)), all triples of permutations for n <= 4 (quick: n <= 3) for the "
         "triangle inequality of kendall_tau_distance, all pairs of rankings of different length over <= 3 "
@@ -99,7 +100,9 @@ def generate(tier, seed):
             if o not in orders:
                 orders.append(o)
         prof = [[o, rng.randint(1, 3)] for o in orders]
-        out.append(case("c20.dm", [i % 3, prof], dm=1))
+        # hist=1: the instance is built through the public append API in two phases with a
+        # distance_matrix / full_profile call in between (history-dependent state must not leak)
+        out.append(case("c20.dm", [i % 3, prof], dm=1, hist=i % 2, hseed=rng.randrange(10 ** 6)))
     return out
 
 
@@ -143,8 +146,27 @@ def impl(c):
     if op == "c20.dm":
         import numpy as np
         which, prof = pl
-        inst = ordinal_instance([(strict(o), m) for o, m in prof], data_type="soc")
         fn = [D.kendall_tau_distance, D.spearman_footrule_distance, D.sertel_distance][which]
+        if c["tags"].get("hist"):
+            from preflibtools.instances import OrdinalInstance
+            hr = random.Random(c["tags"].get("hseed", 0))
+            inst = OrdinalInstance()
+            inst.append_order_list([tuple((a,) for a in o) for o, _ in prof])   # fixes the order of instance.orders
+            D.distance_matrix(inst, fn)
+            inst.full_profile()
+            rest = [o for o, mu in prof for _ in range(mu - 1)]
+            hr.shuffle(rest)
+            for j, o in enumerate(rest):
+                if j % 3 == 0:
+                    inst.append_order(tuple(o))
+                elif j % 3 == 1:
+                    inst.append_vote_map({tuple((a,) for a in o): 1})
+                else:
+                    inst.append_order_list([tuple((a,) for a in o)])
+                if j % 2 == 0:
+                    D.distance_matrix(inst, fn)
+        else:
+            inst = ordinal_instance([(strict(o), m) for o, m in prof], data_type="soc")
         mat = D.distance_matrix(inst, fn)
         if not isinstance(mat, np.ndarray) or mat.ndim != 2:
             return {"crash": "distance_matrix did not return a 2-dimensional numpy array: %r" % (type(mat),)}
